@@ -19,9 +19,9 @@ CLAIMS['C33'] = dict(engine='pyvc (E1) + rtc (E3)', category='proof',
 
 CLAIMS['C35'] = dict(engine='pyvc (E1) + rtc (E3)', category='proof',
     technique='contract-based deductive verification: the jitclass methods are proved against the same ghost specification functions as the reference sampler (functional form of the coupling relation), z3; real numba objects vs reference as run-time relational contracts',
-    text='start/E/update/transitions of the compiled sampler are proved for all tables and occupations to compute the same specification '
-         '(counts, energy, barriers with +inf for forbidden jumps, set/index bookkeeping) as the reference sampler is proved to in C33. '
-         'deltaE_trial, MCmoves (batch == Metropolis move by move), copy and parameter extraction are run-time relational contracts (B) on real numba objects.',
+    text='start/E/update/transitions/deltaE_trial of the compiled sampler are proved for all tables and occupations to compute the same specification '
+         '(counts, energy, barriers with +inf for forbidden jumps, set/index bookkeeping, trial energy = energy of the counts the move produces minus the present energy) '
+         'as the reference sampler is proved to in C33. MCmoves (batch == Metropolis move by move), copy and parameter extraction are run-time relational contracts (B) on real numba objects.',
     note='Assumes numba runs the class body with Python semantics (decorator dropped), table invariants from the constructor (run-time checked), reals for energies.')
 
 CLAIMS['C18'] = dict(engine='rtc (E3)', category='exploration',
